@@ -1,6 +1,7 @@
 import I2N.Lemmas.TravReady
 import I2N.Lemmas.TravClean
 import I2N.Model.TravMon
+import I2N.Extracted.GenClean
 /-!
 # C05 — States are removed only after every dependant finished, and only if asked
 -/
@@ -662,5 +663,105 @@ theorem lazy_unpicked_dependant_starts_after_unset :
   ⟨by decide +kernel, by decide +kernel, by decide +kernel, by decide +kernel⟩
 
 example : ReachH exLazyB 6 [] [0, 1, 2, 3, 4, 5] exB2 := reachH_runSched exLazyB 6 [] _ 100 _ _ ReachH.init
+
+/-! ## The regenerated clean decision (`harness/pygen.py`)
+
+`I2N/Extracted/GenClean.lean` is regenerated on every run from the source of `TestNode.default_clean_decision`: the four
+tests in front (dry run, flat, clone source, foreign worker → `RuntimeError`), the `is_reversible` loop over the node's
+objects (`for … : flag = …; flag |= …; if flag: break  else: flag = False`, printed as `List.any`) and the selection
+"not reversible → clean; reversible → the loop over the involved workers".  That last loop is pinned verbatim (its text
+is in `harness/pygen.py`, a changed body is refused) and enters as `door`, what it returns or raises; `cleanDoor` is
+how `cleanDecision` mirrors it (tied by the differential runs). -/
+
+section Regenerated
+open I2N.Extracted.GenClean
+
+theorem singleton_beq_f (c : Char) : (String.singleton c == "f") = (c == 'f') := by
+  by_cases h : c = 'f'
+  · subst h; decide
+  · have : String.singleton c ≠ "f" := by
+      intro h2
+      apply h
+      have := congrArg String.toList h2
+      simpa using this
+    rw [beq_eq_false_iff_ne.mpr this, beq_eq_false_iff_ne.mpr h]
+
+/-- the first character of the unset mode the model holds for object `vm` of `nd`, as Python's `mode[0]` -/
+def modeHead (nd : Node) (vm : String) : String :=
+  match (unsetModeOf nd vm).toList.head? with
+  | some c => String.singleton c
+  | none => ""
+
+theorem modeHead_f (nd : Node) (vm : String) :
+    (modeHead nd vm == "f") = ((unsetModeOf nd vm).toList.head? == some 'f') := by
+  unfold modeHead
+  cases h : (unsetModeOf nd vm).toList.head? with
+  | none => decide
+  | some c => simp only [singleton_beq_f]; rfl
+
+/-- the loop over the involved workers of `default_clean_decision` ("close the door"), as `cleanDecision` mirrors it -/
+def cleanDoor (g : Graph) (s : State) (n w : Nat) : Except String Bool :=
+  let inv := (involved g s n).filter (fun v =>
+    (g.worker w).swarm == "localhost" || strIn (g.worker w).swarm (g.worker v).id)
+  let pickedOf := fun (v : Nat) =>
+    if g.idIn v n then some n else (g.copies n).tail.find? (fun m => g.idIn v m)
+  if inv.any (fun v => (pickedOf v).isNone) then .error "ValueError" else
+  let okAll := inv.all (fun v =>
+    match pickedOf v with
+    | none => false
+    | some m => isCleanupReady g s m v && !((s.nd m).results.any (fun r => lower r.status == "unknown")))
+  if !okAll then .ok false else .ok (isFinished g s n w (-1))
+
+theorem any_congr_mem {α} (p q : α → Bool) (l : List α) (h : ∀ x ∈ l, p x = q x) : l.any p = l.any q := by
+  induction l with
+  | nil => rfl
+  | cons a l ih =>
+    simp only [List.any_cons]
+    rw [h a (by simp), ih (fun x hx => h x (by simp [hx]))]
+
+/-- the encoding under which the model's one unset mode per object stands for the two parameter reads of the code:
+an object counts as reversible in the code (`unset_mode_images` or `unset_mode_vms`, each defaulting to `unset_mode`,
+starts with `f`) iff the mode exported for it starts with `f` -/
+def ModesEncoded (nd : Node) (imagesMode vmsMode : String → String) : Prop :=
+  ∀ o ∈ nd.objs, ((imagesMode o == "f") || (vmsMode o == "f")) = ((unsetModeOf nd o).toList.head? == some 'f')
+
+/-- **The hand written `cleanDecision` is the Python source of `default_clean_decision`** (the tests in front of the
+pinned loop, their order, the `RuntimeError`, the meaning of `is_reversible` as "some object", and which branch leads
+to the loop), for every graph, state, copy and worker — modulo the explicit encoding `ModesEncoded` of the two
+per-object parameter reads by the one exported mode. -/
+theorem cleanDecision_matches_source (g : Graph) (s : State) (n w : Nat) (imagesMode vmsMode : String → String)
+    (henc : ModesEncoded (g.node n) imagesMode vmsMode) :
+    cleanDecision g s n w =
+      genCleanDecision (g.node n).dryRun (g.node n).flat (g.node n).cloneSource (g.idIn w n) (g.node n).objs
+        imagesMode vmsMode (cleanDoor g s n w) := by
+  have hrev : isReversible (g.node n) =
+      (g.node n).objs.any (fun o => (imagesMode o == "f") || (vmsMode o == "f")) := by
+    unfold isReversible
+    exact any_congr_mem _ _ _ (fun o ho => (henc o ho).symm)
+  unfold cleanDecision genCleanDecision cleanDoor
+  dsimp only
+  rw [hrev]
+  cases (g.node n).dryRun <;> cases (g.node n).flat <;> cases (g.node n).cloneSource <;> cases g.idIn w n <;>
+    try rfl
+  all_goals
+    cases (g.node n).objs.any (fun o => (imagesMode o == "f") || (vmsMode o == "f")) <;> rfl
+
+/-- non-vacuity of `ModesEncoded`: reading both parameters as the exported mode satisfies it, for every node -/
+theorem modesEncoded_modeHead (nd : Node) : ModesEncoded nd (modeHead nd) (modeHead nd) := by
+  intro o _
+  rw [modeHead_f, Bool.or_self]
+
+/-- the generated definition computes: not reversible → clean at once; reversible → whatever the loop says; a foreign
+worker raises before the objects are looked at; a dry run never cleans -/
+example : genCleanDecision false false false true ["vm1", "vm2"] (fun _ => "r") (fun _ => "r") (.ok false) = .ok true ∧
+    genCleanDecision false false false true ["vm1", "vm2"] (fun o => if o == "vm2" then "f" else "r") (fun _ => "r")
+      (.ok false) = .ok false ∧
+    genCleanDecision false false false true ["vm1"] (fun _ => "r") (fun _ => "f") (.error "ValueError") =
+      .error "ValueError" ∧
+    genCleanDecision false false false false [] (fun _ => "f") (fun _ => "f") (.ok true) = .error "RuntimeError" ∧
+    genCleanDecision true false false false ["vm1"] (fun _ => "f") (fun _ => "f") (.ok true) = .ok false :=
+  ⟨rfl, rfl, rfl, rfl, rfl⟩
+
+end Regenerated
 
 end I2N.Props.C05
